@@ -3,6 +3,6 @@ SPECIFICATION Spec
 CONSTANTS
   Qids = {1}
   MaxLen = 4
-  Programs = {"pass", "twice", "short", "err", "newmsg", "newctx", "callerr", "thrice"}
+  Programs = {"pass", "twice", "short", "err", "newmsg", "newctx", "callerr", "thrice", "hedge"}
 INVARIANTS Inv
 CHECK_DEADLOCK FALSE
